@@ -132,6 +132,41 @@ pub async fn run_one(rep: &mut Report, sub_seed: u64, table: Arc<Vec<Vec<u8>>>, 
             in_range: false,
         });
     }
+    // "silent" keys: stored before the migration and never touched by a client, so only the background
+    // scan moves them. In a third of the scenarios every node refuses the first one or two RESTOREs of
+    // some of them with a transient error (a destination under memory pressure): a batch that is only
+    // partly accepted must not cost the rejected keys. (Client-touched keys are left alone: the
+    // on-demand pull sends RESTORE and the command together, and what a refused RESTORE means there is
+    // outside the property's quantifier - the repository's own test says so.)
+    let restore_faults = rng.chance(1, 3);
+    if restore_faults {
+        rep.count("scenarios_with_transient_restore_errors", 1);
+    }
+    let mut silent: Vec<(Vec<u8>, Vec<u8>, usize)> = vec![];
+    {
+        let (own0, _) = sc.designated().await;
+        for i in 0..rng.urange(6, 12) {
+            let slot = rng.usize_below(16384);
+            let mut key = b"{".to_vec();
+            key.extend_from_slice(&table[slot]);
+            key.extend_from_slice(format!("}}silent{}", i).as_bytes());
+            let val = format!("silent-value-{}-{}", sub_seed, i).into_bytes();
+            if let Some((node, _)) = own0[slot].clone() {
+                if let Some(r) = sc.sys.net.redis(&node) {
+                    r.set_raw(&key, Val::Str(val.clone()), None);
+                    if restore_faults && rng.chance(1, 2) {
+                        let k = rng.urange(1, 2);
+                        for n in sc.sys.net.all_redis() {
+                            let mut q: Vec<RespVec> = (0..k).map(|_| Resp::Error(b"OOM command not allowed when used memory > 'maxmemory'.".to_vec())).collect();
+                            q.push(Resp::Simple(crate::fakeredis::SCRIPT_END.to_vec()));
+                            n.script_reply("RESTORE", &key, q);
+                        }
+                    }
+                    silent.push((key, val, slot));
+                }
+            }
+        }
+    }
     let members: Vec<String> = match sc.cluster_view().await {
         Some(c) => c.get_nodes().iter().map(|n| n.get_proxy_address().to_string()).collect::<std::collections::BTreeSet<_>>().into_iter().collect(),
         None => sc.proxies.clone(),
@@ -272,6 +307,20 @@ pub async fn run_one(rep: &mut Report, sub_seed: u64, table: Arc<Vec<Vec<u8>>>, 
     // quiescence
     tokio::time::sleep(Duration::from_millis(200)).await;
     let (own, _) = sc.designated().await;
+    for (key, val, slot) in silent.iter() {
+        let holders: Vec<(String, Val)> = sc.sys.net.all_redis().iter().filter_map(|r| r.get_raw(key).map(|(v, _)| (r.addr.clone(), v))).collect();
+        let owner = own[*slot].as_ref().map(|o| o.0.clone());
+        rep.count("silent_keys_compared", 1);
+        let ok = holders.len() == 1 && Some(&holders[0].0) == owner.as_ref() && holders[0].1 == Val::Str(val.clone());
+        if !ok && focus == "C03" {
+            let sig = if holders.is_empty() { "C03:untouched-key-lost" } else if holders.len() > 1 { "C03:untouched-key-on-several-nodes" } else { "C03:untouched-key-misplaced-or-changed" };
+            rep.violation(
+                sig,
+                format!("key {} (slot {}) was stored before the migration and never touched by a client; afterwards it is held by {:?}, the slot belongs to {:?}", String::from_utf8_lossy(key), slot, holders.iter().map(|h| h.0.clone()).collect::<Vec<_>>(), owner),
+                json!({"scenario": ctx, "transient_restore_errors": restore_faults}),
+            );
+        }
+    }
     let histories = histories.into_inner();
     let mut total_ops = 0u64;
     for (ki, h) in histories.iter().enumerate() {
